@@ -353,6 +353,7 @@ func runC11(w *World, p map[string]int) {
 			// the process dies inside one of the storage writes of the commit
 			s.disk.CrashAtWrite = s.disk.Writes + 1 + t.Int(3)
 			s.disk.TornAt = t.Int(400)
+			s.disk.CrashOnlyG = goid() // the callback unwinds this goroutine: compaction writes are skipped
 			s.disk.OnCrash = func() { panic(errCrashNow) }
 		}
 		run := func(tx mwdb.DBTransaction) error {
